@@ -21,6 +21,7 @@ class Stubs:
         self.witnesses = {}     # stub name -> callable returning True when the declared outcomes are exhibited
         self.docs = {}
         self.fields = {}        # attribute name -> external classes that always carry it
+        self.consts = {}        # dotted name of an external constant -> V term
 
     # ---- registration
     def fn(self, dotted, doc='', witness=None):
